@@ -30,6 +30,8 @@ impl World {
         self.credit_calls = 0;
         self.last_fin_ran = false;
         let drops0 = drops_len();
+        let garbage_pre_dropped: Vec<bool> = self.sh.objs.iter().map(|o| o.dropped).collect();
+        let nonempty_pre = cnt_pre > 0;
         let mut ret_some = None;
         let snap_pre = if self.verify && (op.is_mutator()) { Some(self.arena().verif_heap_snapshot(SNAP_CAP)) } else { None };
         let snap_pre2 = snap_pre.clone();
@@ -139,6 +141,32 @@ impl World {
         // ---- C08 contract table
         self.c08(op, pre, post, ret_some)?;
 
+        // ---- garbage that existed when the cycle woke is destructed by the end of that cycle, whatever weak look-ups,
+        //      barriers and allocations happen in between (C02 exactness / C05 "a weak pointer never keeps its target alive")
+        if self.sc.exact_cycle {
+            if matches!(op.k, K::Step | K::Fault) {
+                self.wake_known = false;
+                self.wake_garbage.clear();
+            } else {
+                if op.is_collector() && pre == P::Sleeping && (post != P::Sleeping || op.k == K::FinCycle) && nonempty_pre {
+                    // the collector woke inside this call: the shadow graph has not changed since before the call
+                    let reach = self.sh.reach_mask();
+                    self.wake_garbage = (0..self.sh.objs.len() as u8).filter(|i| !reach[*i as usize] && !garbage_pre_dropped.get(*i as usize).copied().unwrap_or(true)).collect();
+                    self.wake_known = true;
+                }
+                let reach = self.sh.reach_mask();
+                self.wake_garbage.retain(|g| !reach[*g as usize]);
+                if self.wake_known && post == P::Sleeping && (pre != P::Sleeping || op.k == K::FinCycle) {
+                    for g in &self.wake_garbage {
+                        if !self.sh.objs[*g as usize].dropped {
+                            viol!("c02.garbage_at_wake_survived", "object {g} was already unreachable when this cycle woke and stayed so, but the cycle ended without destructing it");
+                        }
+                    }
+                    self.wake_known = false;
+                    self.wake_garbage.clear();
+                }
+            }
+        }
         // ---- C07 bookkeeping
         if !self.sc.fin {
             return Ok(());
@@ -324,6 +352,9 @@ impl World {
                 }
                 if so.w.is_some() {
                     ops.push(Op::n1(K::ClearWeak, *p));
+                    if sc.upgrade_ops && sc.exact_cycle {
+                        ops.push(Op::n1(K::UpOnly, *p));
+                    }
                     if sc.upgrade_ops {
                         for q in &nodes {
                             for s in 0..sc.k {
